@@ -468,8 +468,10 @@ def merge_and_report(prop: Prop, tier, seed, parts, wall, replay_mode=False):
     REPLAYS.mkdir(parents=True, exist_ok=True)
     for oracle, v in sorted(viols.items()):
         rp = REPLAYS / f"{prop.ID}-{oracle.replace('/', '_').replace(':', '_')[:60]}-{jhash(v['case'])}.json"
-        rp.write_text(json.dumps({'property': prop.ID, 'oracle': oracle, 'case': v['case'],
-                                  'message': v['msg'], 'count': v['count']}, indent=1, default=repr))
+        rec = {'property': prop.ID, 'oracle': oracle, 'case': v['case'], 'message': v['msg'], 'count': v['count']}
+        if v.get('sequence'):
+            rec['sequence'] = v['sequence']      # crash confirmed only inside its generated sequence: ./check --replay re-runs the shard
+        rp.write_text(json.dumps(rec, indent=1, default=repr))
         print(f'VIOLATION property={prop.ID} replay={rp}')
         print(f'  oracle={oracle} count={v["count"]} msg={v["msg"][:300]}')
         rc = 1
